@@ -42,6 +42,12 @@ func (r *Result) Fail(clause, detail string) {
 	r.Violations = append(r.Violations, Violation{clause, detail})
 }
 
+// PoisonProbe, when set, is asked after every case whether the process has been left in a state that would disturb
+// later cases (e.g. a watchdog expired: a goroutine of the code under test is wedged). If so the worker retires;
+// when the case itself reported nothing, blocked says whether a stack dump confirms a blocked goroutine of the
+// code under test (then the wedge is the case's verdict) or not (then it is an engine error).
+var PoisonProbe func() (poisoned, blocked bool, dump string)
+
 // Case is one execution to perform.
 type Case struct {
 	Family string
